@@ -17,8 +17,9 @@ COMP_MEANING = {
     "resolve": "device resolvable by SKI/address iff connected"}
 
 
-def consts(peers=("p1", "p2"), acts=(), rich=(), maxval=1, devs=()):
-    return {"Peers": set(peers), "KnownDeviations": set(devs), "Acts": set(acts), "MaxVal": maxval, "Rich": set(rich)}
+def consts(peers=("p1", "p2"), acts=(), rich=(), maxval=1, devs=(), ghost=0, tiny=()):
+    return {"Peers": set(peers), "KnownDeviations": set(devs), "Acts": set(acts), "MaxVal": maxval, "Rich": set(rich), "GhostCap": ghost,
+            "Tiny": set(tiny)}
 
 
 def mc_run(c, maxlen, prefix, timeout, workers=NCPU):
@@ -33,7 +34,8 @@ def mc_run(c, maxlen, prefix, timeout, workers=NCPU):
 
 
 def gen_bfs(c, maxlen, prefix, timeout, view="View"):
-    cfg = cfg_text("Spec", dict(c, MaxLen=maxlen), subst={"Prefix": prefix}, view=view, action_constraints=["Emit"])
+    # view None: the history is part of the state, i.e. the full tree of input sequences is enumerated
+    cfg = cfg_text("Spec", dict(c, MaxLen=maxlen), subst={"Prefix": prefix}, view=view, action_constraints=["Emit" if view else "EmitLeaf"])
     code, out = run_tlc("CoreMC.tla", cfg, timeout=timeout, workers=1, heap="8g")
     if not tlc_ok(code, out):
         raise Inconclusive("generator run failed:\n" + out[-3000:])
@@ -213,7 +215,7 @@ def run(prop, tier, seed, P, replay=None):
         # 2. behaviours from TLC
         behs, topo, gen_trans = [], None, 0
         for g in T["gen"]:
-            c = consts(peers=g.get("peers", ("p1", "p2")), acts=g["acts"], rich=g.get("rich", ()), maxval=g.get("maxval", 1))
+            c = consts(peers=g.get("peers", ("p1", "p2")), acts=g["acts"], rich=g.get("rich", ()), maxval=g.get("maxval", 1), ghost=g.get("ghost", 0), tiny=g.get("tiny", ()))
             topo, b, st = gen_bfs(c, g["maxlen"], g.get("prefix", "PrefixNone"), timeout=T.get("gen_timeout", 900), view=g.get("view", "View"))
             log("[%s] generator %s maxlen %d view %s: %d behaviours" % (prop, g["acts"], g["maxlen"], g.get("view", "View"), len(b)))
             gen_trans += len(b)
